@@ -1,0 +1,65 @@
+//go:build verif
+
+package rueidis
+
+// Export wrappers for the cluster family of the model-based verification harness (properties C19-C21, C31).
+// Nothing in this file is compiled without the "verif" build tag.
+
+import (
+	"bufio"
+	"bytes"
+	"fmt"
+
+	"github.com/redis/rueidis/internal/cmds"
+)
+
+// VerifGroup is the exported form of one entry of the map returned by parseSlots / parseShards.
+type VerifGroup struct {
+	Nodes []string   // nodes[0] is the primary
+	Slots [][2]int64 // inclusive ranges
+}
+
+// VerifParseTopology decodes one RESP value with the real decoder and hands it to parseSlots (kind "slots") or
+// parseShards (kind "shards").  A panic of the parser is caught and reported in panicMsg.
+func VerifParseTopology(kind string, resp []byte, defaultAddr string, tls bool) (groups map[string]VerifGroup, panicMsg string, err error) {
+	msg, err := readNextMessage(bufio.NewReader(bytes.NewReader(resp)))
+	if err != nil {
+		return nil, "", err
+	}
+	defer func() {
+		if r := recover(); r != nil {
+			panicMsg = fmt.Sprint(r)
+		}
+	}()
+	var gs map[string]group
+	switch kind {
+	case "slots":
+		gs = parseSlots(msg, defaultAddr)
+	case "shards":
+		gs = parseShards(msg, defaultAddr, tls)
+	default:
+		return nil, "", fmt.Errorf("unknown topology kind %q", kind)
+	}
+	groups = make(map[string]VerifGroup, len(gs))
+	for addr, g := range gs {
+		vg := VerifGroup{Slots: append([][2]int64(nil), g.slots...)}
+		for _, n := range g.nodes {
+			vg.Nodes = append(vg.Nodes, n.Addr)
+		}
+		groups[addr] = vg
+	}
+	return groups, "", nil
+}
+
+// VerifParseEndpoint calls parseEndpoint under recover.
+func VerifParseEndpoint(fallback, endpoint string, port int64) (addr string, panicMsg string) {
+	defer func() {
+		if r := recover(); r != nil {
+			panicMsg = fmt.Sprint(r)
+		}
+	}()
+	return parseEndpoint(fallback, endpoint, port), ""
+}
+
+// VerifKeySlot is the client's own slot function (the simulated cluster computes slots independently).
+func VerifKeySlot(key string) uint16 { return cmds.Slot(key) }
